@@ -26,8 +26,113 @@ def prepare(repo):
     build.setup(repo)
 
 
+def gen_actions_doc(r, tn):
+    """a form with QAction children (plain, checkable, static separators), an actions list, and bindings and handlers that
+    read and write the actions - also the ones that end up as separators.  Compile-only: `Ui::<Type>` (from the .ui, by the
+    stand-in uic) must have every member the header names."""
+    n = r.randint(2, 5)
+    acts = []
+    for k in range(n):
+        kind = r.weighted([(4, "plain"), (3, "checkable"), (3, "separator")])
+        acts.append({"id": ("sep%d" if kind == "separator" else "act%d") % k, "kind": kind})
+    if not any(a["kind"] != "separator" for a in acts):
+        acts[0] = {"id": "act0", "kind": "checkable"}
+    ref_seps = r.chance(0.5)     # whether expressions may name a separator
+
+    def anyact():
+        pool = [a for a in acts if a["kind"] != "separator" or ref_seps]
+        return r.choice(pool)
+
+    def boolexpr():
+        k = r.below(6)
+        if k == 0:
+            return "chk.checked"
+        if k == 1:
+            return "!chk.checked"
+        if k == 2:
+            return "edit.text != \"\""
+        a = anyact()
+        p = r.choice(["enabled", "visible"] + (["checked"] if a["kind"] == "checkable" else []))
+        return "%s.%s" % (a["id"], p) if k < 5 else "(%s.%s && chk.checked)" % (a["id"], p)
+
+    def strexpr():
+        k = r.below(3)
+        if k == 0:
+            return "edit.text"
+        if k == 1:
+            return "\"t: \" + edit.text"
+        return "%s.text" % anyact()["id"]
+
+    L = ["import qmluic.QtWidgets", "", "%s {" % r.choice(["QWidget", "QDialog"]), "    id: root",
+         "    actions: [%s]" % ", ".join(a["id"] for a in acts)]
+    if r.chance(0.4):
+        L.append("    windowTitle: %s" % strexpr())
+    seps = []
+    for a in acts:
+        if a["kind"] == "separator":
+            L.append("    QAction { id: %s; separator: true }" % a["id"])
+            seps.append(a["id"])
+            continue
+        L.append("    QAction {")
+        L.append("        id: %s" % a["id"])
+        if a["kind"] == "checkable":
+            L.append("        checkable: true")
+        if r.chance(0.5):
+            L.append("        text: %s" % (strexpr() if r.chance(0.5) else "\"Act %s\"" % a["id"]))
+        for p in r.sample(["enabled", "visible"] + (["checked"] if a["kind"] == "checkable" else []), r.randint(0, 2)):
+            e = boolexpr()
+            if not e.startswith(a["id"] + "."):
+                L.append("        %s: %s" % (p, e))
+        if r.chance(0.4):
+            L.append(r.choice(["        onTriggered: edit.clear()", "        onTriggered: function(on: bool) { btn.enabled = on }",
+                               "        onToggled: function(on: bool) { chk.checked = on }", "        onHovered: { btn.flat = !btn.flat }"]))
+        L.append("    }")
+    L += ["    QVBoxLayout {", "        QCheckBox { id: chk }", "        QLineEdit { id: edit; enabled: %s }" % boolexpr(),
+          "        QPushButton { id: btn; enabled: %s }" % boolexpr(), "    }", "}"]
+    return {"kind": "actiondoc", "c16_kind": "actions", "qml": "\n".join(L) + "\n", "type_name": tn, "separators": seps}
+
+
+def run_action_case(case, env, stats):
+    import re
+    probes = stats["probes"]
+    wd = env.fresh_dir("qt")
+    tr = build.translate(env, case["qml"], case["type_name"], wd)
+    stats["runs"] += 1
+    if tr["exit"] != 0 or tr["ui"] is None or tr["header"] is None:
+        qtcheck._bump(probes, "generated_documents_rejected_by_qmluic")
+        stats.setdefault("notes", []).append("rejected action document: %s" % [l for l in tr["stderr"].splitlines() if l.startswith("error")][:2])
+        return [], [], {"document": case["qml"][:1500], "rejected": True}
+    qtcheck._bump(probes, "documents_accepted")
+    viol = []
+    whole = qtcheck.header_is_whole(tr["header"], case["type_name"])
+    if whole is not None:
+        return [V("compile", "c16:header-incomplete", "exit 0, but the support header is not a complete translation unit: %s" % whole)], [], None
+    b = build.build_driver(case["type_name"], tr["ui"], tr["header"], wd, syntax_compilers=SYNTAX)
+    stats["sim_steps"]["translation_units_compiled"] = stats["sim_steps"].get("translation_units_compiled", 0) + 1
+    for stage, text in sorted(b["errors"].items()):
+        locs = re.findall(r"(\S+?):\d+:\d+: error:", text)
+        if locs and all(("/ui_" in l or l.endswith("driver.cpp")) for l in locs):
+            raise RuntimeError("harness: compile error outside the generated header (%s):\n%s" % (stage, text[:1500]))
+        # a member of Ui::<Type> that the header names but the .ui does not declare
+        missing = set(re.findall(r"no member named [‘']([A-Za-z_0-9]+)[’'] in [‘']Ui::", text)) | set(re.findall(r"[‘']class Ui::\w+[’'] has no member named [‘']([A-Za-z_0-9]+)[’']", text))
+        if missing and missing <= set(case.get("separators", [])):
+            key = "separator-action-referenced"
+            detail = ("accepted document; the .ui turns QAction { id: %s; separator: true } into <addaction name=\"separator\"/> and declares no such object, "
+                      "but the support header still names this->ui_->%s because another expression reads it" % (sorted(missing)[0], sorted(missing)[0]))
+        else:
+            key = qtcheck.classify_compile_error(text, tr["header"])
+            detail = "accepted document, but the header does not compile"
+        viol.append(V("compile", "c16:cxx-compile:" + key, "%s (%s):\n%s\n--- document\n%s" % (detail, stage, "\n".join(text.splitlines()[:10]), case["qml"][:3000]), stage=stage))
+    if any(s in tr["header"] for s in case.get("separators", [])):
+        qtcheck._bump(probes, "action_documents_whose_header_names_a_separator")
+    fps = ["actiondoc|%s" % qtcheck.hash_text(case["qml"])]
+    return viol, fps, {"document": case["qml"][:1500]}
+
+
 def gen_case(rng, params, index):
-    kind = rng.weighted([(3, "cascade"), (3, "observers"), (2, "names"), (3, "literals"), (2, "operators"), (3, "facilities"), (3, "general")])
+    kind = rng.weighted([(3, "cascade"), (3, "observers"), (2, "names"), (3, "literals"), (2, "operators"), (3, "facilities"), (3, "general"), (2, "actions")])
+    if kind == "actions":
+        return gen_actions_doc(rng.fork("actions"), rng.choice(qtcheck.TYPE_NAMES))
     tn = rng.choice(qtcheck.TYPE_NAMES)
     r2 = rng.fork("doc")
     if kind == "general":
@@ -63,6 +168,11 @@ def run_case(case, env):
     for e in case.get("gen_errors", []):
         qtcheck._bump(probes, "histories_dropped_at_generation")
         stats.setdefault("notes", []).append(e)
+    if case.get("kind") == "actiondoc":
+        viol, fps, sample = run_action_case(case, env, stats)
+        if sample is not None:
+            sample["kind"] = "actions"
+        return {"violations": viol, "stats": stats, "fingerprints": fps, "sample": sample}
     viol, fps, sample = qtcheck.run_doc_case(case, env, "build", stats, syntax_compilers=SYNTAX)
     out = []
     for v in viol:
@@ -81,6 +191,15 @@ def run_case(case, env):
 
 
 def shrink(case, violation):
+    if case.get("kind") == "actiondoc":
+        # drop single lines of the document (object blocks of one line, bindings, handlers)
+        lines = case["qml"].splitlines()
+        for i in range(len(lines) - 1, 4, -1):
+            if lines[i].strip() in ("}", "{") or lines[i].strip().startswith(("QVBoxLayout", "QAction {", "id:")):
+                continue
+            c = dict(case, qml="\n".join(lines[:i] + lines[i + 1:]) + "\n")
+            yield c
+        return
     for c in qtcheck.shrink_doc_case(case, violation):
         yield c
 
